@@ -185,7 +185,7 @@ int main(void) {
                 char nm[48]; size_t i = 0; const char *s = q + 4;
                 while (s[i] && s[i] != ' ' && s[i] != '\n' && s[i] != '(' && i < sizeof nm - 1) { nm[i] = s[i]; i++; } nm[i] = 0;
                 if (!i || strstr(fr, nm) || !strncmp(nm, "__interceptor", 13) || !strncmp(nm, "__asan", 6) || strstr(nm, "printf") ||
-                    !strcmp(nm, "fputc") || !strcmp(nm, "fwrite") || !strncmp(nm, "_IO_", 4) || !strncmp(nm, "__GI_", 5)) continue;
+                    !strcmp(nm, "fputc") || !strcmp(nm, "type") || !strcmp(nm, "fwrite") || !strncmp(nm, "_IO_", 4) || !strncmp(nm, "__GI_", 5)) continue;
                 if (nf) strncat(fr, ",", sizeof fr - strlen(fr) - 1);
                 strncat(fr, nm, sizeof fr - strlen(fr) - 1); nf++;
             }
